@@ -18,7 +18,8 @@ enum Op {
     BindFixed(u16),
     BindIpc(u8),
     BindBadHost,
-    UnbindBound(usize),
+    /// (index, the removal of an ipc endpoint's socket file fails)
+    UnbindBound(usize, bool),
     UnbindUnknown(u8),
     ConnectIn(usize),
     /// a connection that is accepted and then says nothing, ever (kept open)
@@ -61,7 +62,7 @@ fn bookkeeping(ctx: &mut Ctx) {
             4 => Op::BindFixed(6000 + ctx.plan(2) as u16),
             5 => Op::BindIpc(ctx.plan(2) as u8),
             6 => Op::BindBadHost,
-            7 | 8 => Op::UnbindBound(ctx.plan(8) as usize),
+            7 | 8 => Op::UnbindBound(ctx.plan(8) as usize, ctx.plan(4) == 0),
             9 | 15 => Op::UnbindUnknown(ctx.plan(10) as u8),
             10 | 11 => Op::ConnectIn(ctx.plan(8) as usize),
             14 => Op::OtherSocketBind(ctx.plan(8) as usize),
@@ -144,15 +145,36 @@ fn bookkeeping(ctx: &mut Ctx) {
                         }
                     }
                 }
-                Op::UnbindBound(i) => {
+                Op::UnbindBound(i, unlink_fails) => {
                     if model.is_empty() {
                         continue;
                     }
                     let text = model[*i % model.len()].clone();
                     let ep: Endpoint = text.parse().expect("endpoint text");
+                    // an ipc endpoint whose socket file cannot be removed at this moment: unbind may
+                    // report that, but the endpoint is unbound all the same - nothing listens there
+                    // any more, so it is not in the bind set any more either
+                    let failing = *unlink_fails && text.starts_with("ipc://");
+                    if failing {
+                        rt::rt().net.borrow_mut().fail_remove_file = 1;
+                    }
                     match sock.unbind(ep).await {
                         Ok(()) => {}
+                        Err(_) if failing => {}
                         Err(e) => bail!("unbind_of_bound_endpoint_failed", "op {n}: unbind({text}) failed: {e}"),
+                    }
+                    if failing {
+                        rt::rt().net.borrow_mut().fail_remove_file = 0;
+                        // somebody tidies the file away
+                        if let Some(p) = text.strip_prefix("ipc://") {
+                            rt::rt().net.borrow_mut().files.remove(std::path::Path::new(p));
+                        }
+                        rt::count("fault_unlink_error_at_unbind");
+                        let again: Endpoint = text.parse().expect("endpoint text");
+                        match sock.unbind(again).await {
+                            Err(ZmqError::NoSuchBind(_)) => {}
+                            other => bail!("unbound_endpoint_still_in_the_bind_set", "op {n}: unbind({text}) stopped the listener but could not remove the socket file; a second unbind of the same endpoint must find nothing, but returned {:?}", other.map_err(|e| e.to_string())),
+                        }
                     }
                     o2.borrow_mut().unbinds += 1;
                     model.retain(|m| *m != text);
